@@ -138,6 +138,9 @@ pub struct HistModel {
     pub probe: Option<Box<dyn Fn(&HistModel, &St) -> Vec<Issue> + Send + Sync>>,
     pub probes_run: AtomicU64,
     pub max_depth: usize,
+    /// replay the whole interleaved history on fresh parsers at every transition (soundness of merging states by cache
+    /// content); switched off in the largest thorough configurations, whose alphabets are covered with it elsewhere
+    pub replay_history: bool,
 }
 
 pub const GUARDS: [&str; 8] = [
@@ -184,6 +187,7 @@ impl HistModel {
             probe: None,
             probes_run: AtomicU64::new(0),
             max_depth,
+            replay_history: true,
         }
     }
     pub fn guard(&self, name: &str) {
@@ -279,11 +283,15 @@ impl HistModel {
         let res = ps[i].parse_bytes(&a.bytes);
         let got: Vec<CPkt> = res.iter().map(c_pkt).collect();
         // ... and on a parser that replayed the whole history (soundness of merging states by snapshot)
-        let mut q = self.replay(i, &st.hist);
-        let res_q = q.parse_bytes(&a.bytes);
-        self.parse_calls.fetch_add(2 + st.hist.len() as u64, Ordering::Relaxed);
-        if format!("{:?}", res) != format!("{:?}", res_q) || enc_of(&q) != enc_of(&ps[i]) {
-            issues.push(issue("result-depends-on-history-beyond-the-caches", format!("instance {}: a parser rebuilt from the cache snapshot and a parser that replayed the history disagree on action {}", i, a.name)));
+        if self.replay_history {
+            let mut q = self.replay(i, &st.hist);
+            let res_q = q.parse_bytes(&a.bytes);
+            self.parse_calls.fetch_add(2 + st.hist.len() as u64, Ordering::Relaxed);
+            if format!("{:?}", res) != format!("{:?}", res_q) || enc_of(&q) != enc_of(&ps[i]) {
+                issues.push(issue("result-depends-on-history-beyond-the-caches", format!("instance {}: a parser rebuilt from the cache snapshot and a parser that replayed the history disagree on action {}", i, a.name)));
+            }
+        } else {
+            self.parse_calls.fetch_add(1, Ordering::Relaxed);
         }
 
         // (1) decoded data equals the reference decode under the latest definition, and
@@ -488,6 +496,7 @@ pub fn search(model: HistModel, threads: usize) -> (HistModel, HistResult) {
     let guards: Vec<(&'static str, u64)> = m.guards.iter().map(|(n, c)| (*n, c.load(Ordering::Relaxed))).collect();
     // hand back a model carrying the collected data (actions are needed for replay files)
     let mut out = HistModel::new(m.ninst, m.allowed.clone(), m.actions.clone(), m.max_depth);
+    out.replay_history = m.replay_history;
     *out.collected.lock().unwrap() = collected;
     for ((_, c), (_, v)) in out.guards.iter().zip(guards.iter()) {
         c.store(*v, Ordering::Relaxed);
